@@ -201,9 +201,12 @@ type pathVariant struct {
 func runAuth(n int) {
 	rng := vt.Rand(21)
 	variants := []pathVariant{{"empty", "raw", [3]int{}}, {"onehop", "raw", [3]int{}},
-		{"scion", "raw", [3]int{2, 0, 0}}, {"scion", "decoded", [3]int{3, 0, 0}}, {"scion", "raw", [3]int{2, 2, 0}},
-		{"scion", "decoded", [3]int{1, 2, 0}}, {"scion", "raw", [3]int{2, 3, 2}}, {"scion", "decoded", [3]int{1, 1, 1}},
-		{"epic", "raw", [3]int{2, 0, 0}}, {"epic", "raw", [3]int{2, 2, 0}}, {"epic", "raw", [3]int{1, 2, 2}}}
+		{"scion", "raw", [3]int{2, 0, 0}}, {"epic", "raw", [3]int{2, 2, 0}}, {"scion", "decoded", [3]int{1, 2, 0}},
+		{"scion", "raw", [3]int{2, 3, 2}}, {"scion", "decoded", [3]int{1, 1, 1}}, {"epic", "raw", [3]int{1, 2, 2}},
+		{"scion", "decoded", [3]int{3, 0, 0}}, {"scion", "raw", [3]int{2, 2, 0}}, {"epic", "raw", [3]int{2, 0, 0}}}
+	if n < len(variants) {
+		variants = variants[:n]
+	}
 	for len(variants) < n {
 		segs := [3]int{1 + rng.Intn(5), rng.Intn(5), 0}
 		if segs[1] > 0 {
